@@ -192,6 +192,78 @@ theorem history_counts_against_the_limit (fuel : Nat) (srcs : List (Mode × List
       exact ⟨b1.trans a1, Nat.le_trans a2 b2, fun N hN hm => b3 N (a1 ▸ hN) (a3 N hN hm)⟩
     · cases h
 
+/-- what a host does between the moment it sets the instruction limit and the moment it sets it again: sources, the
+    OTHER two limits (sized to the input it is about to feed), recording switched on or off, a stopped program given up -/
+inductive HostOp
+  | source (mode : Mode) (toks : List Compile.Tok)
+  | stackLimit (l : Option Nat)
+  | heapLimit (l : Option Nat)
+  | recording (on : Bool)
+  | abortRun
+
+def hostStep (fuel : Nat) : HostOp → Sess → Option Sess
+  | .source mode toks, s => after (s.buildSource fuel mode toks)
+  | .stackLimit l, s => some { s with m := s.m.setStackLimit l }
+  | .heapLimit l, s => some { s with m := s.m.setHeapLimit l }
+  | .recording on, s => some { s with m := s.m.setRecording on }
+  | .abortRun, s => some s.abortRun
+
+def hostHistory (fuel : Nat) : List HostOp → Sess → Option Sess
+  | [], s => some s
+  | op :: rest, s =>
+    match hostStep fuel op s with
+    | some s' => hostHistory fuel rest s'
+    | none => none
+
+/-- one host operation: the instruction limit is what it was, the meter has not gone down and has not passed it -/
+theorem host_step_counts_against_the_limit (fuel : Nat) (op : HostOp) (s s' : Sess) (h : hostStep fuel op s = some s') :
+    s'.m.insnLimit = s.m.insnLimit ∧ s.m.meter ≤ s'.m.meter ∧
+    ∀ N, s.m.insnLimit = some N → s.m.meter ≤ N → s'.m.meter ≤ N := by
+  cases op with
+  | source mode toks => exact source_counts_against_the_limit fuel mode toks s s' h
+  | stackLimit l => cases h; exact ⟨rfl, Nat.le_refl _, fun _ _ h => h⟩
+  | heapLimit l => cases h; exact ⟨rfl, Nat.le_refl _, fun _ _ h => h⟩
+  | recording on => cases h; exact ⟨rfl, Nat.le_refl _, fun _ _ h => h⟩
+  | abortRun => cases h; exact ⟨rfl, Nat.le_refl _, fun _ _ h => h⟩
+
+/-- **any history of host operations that does not set the instruction limit again**: at most N instructions execute
+    after the limit is set — adjusting the stack or heap limit, switching recording, giving a program up and feeding
+    further sources (built, failed or rejected) gives nothing back -/
+theorem host_history_counts_against_the_limit (fuel : Nat) (ops : List HostOp) :
+    ∀ (s s' : Sess), hostHistory fuel ops s = some s' →
+      s'.m.insnLimit = s.m.insnLimit ∧ s.m.meter ≤ s'.m.meter ∧
+      ∀ N, s.m.insnLimit = some N → s.m.meter ≤ N → s'.m.meter ≤ N := by
+  induction ops with
+  | nil => intro s s' h; cases h; exact ⟨rfl, Nat.le_refl _, fun _ _ h => h⟩
+  | cons op rest ih =>
+    intro s s' h
+    simp only [hostHistory] at h
+    split at h
+    · rename_i s1 h1
+      obtain ⟨a1, a2, a3⟩ := host_step_counts_against_the_limit fuel op s s1 h1
+      obtain ⟨b1, b2, b3⟩ := ih s1 s' h
+      exact ⟨b1.trans a1, Nat.le_trans a2 b2, fun N hN hm => b3 N (a1 ▸ hN) (a3 N hN hm)⟩
+    · cases h
+
+/-- … and the count really starts at the moment the limit is set: `set_insn_limit N` followed by any such history leaves
+    the meter — the number of instructions executed since — at most N -/
+theorem at_most_N_after_the_limit_is_set (fuel : Nat) (ops : List HostOp) (N : Nat) (s s' : Sess)
+    (h : hostHistory fuel ops { s with m := s.m.setInsnLimit (some N) } = some s') :
+    s'.m.meter ≤ N ∧ s'.m.insnLimit = some N := by
+  obtain ⟨a1, _, a3⟩ := host_history_counts_against_the_limit fuel ops _ s' h
+  exact ⟨a3 N rfl (Nat.zero_le _), a1⟩
+
+/-- non-vacuity: limit 10, a source of four instructions, the stack limit adjusted, recording switched on, the same
+    source again, the heap limit adjusted, and a third time: the third one is refused at the limit (meter 10), whatever
+    was configured in between -/
+example :
+    (hostHistory 100
+      [.source .eval [.lit (.int 1), .lit (.int 2), .word "drop", .word "drop"], .stackLimit (some 50), .recording true,
+       .source .eval [.lit (.int 1), .lit (.int 2), .word "drop", .word "drop"], .heapLimit (some 70), .abortRun,
+       .source .eval [.lit (.int 1), .lit (.int 2), .word "drop", .word "drop"]]
+      ({ m := ({ dict := [("drop", .native false "drop")] } : Mach).setInsnLimit (some 10) } : Sess)).map
+      (fun s => (s.m.meter, s.m.insnLimit, s.m.stackLimit, s.m.heapLimit, s.m.log.isSome)) = some (10, some 10, some 50, some 70, true) := by decide +kernel
+
 /-- `State::run` itself, any machine (no well-formedness needed for the meter) -/
 theorem run_counts_against_the_limit (fuel : Nat) (m : Mach) (r : R Unit) (h : Mach.run np fuel m = some r) :
     r.2.insnLimit = m.insnLimit ∧ m.meter ≤ r.2.meter ∧ ∀ N, m.insnLimit = some N → m.meter ≤ N → r.2.meter ≤ N := by
